@@ -26,7 +26,7 @@ def scripted(sched):
     def ch(en, step):
         if step < len(sched):
             return en.index(tuple(sched[step])) if tuple(sched[step]) in en else 0
-        return 0
+        return len(en) - 1
     return ch
 
 
@@ -88,14 +88,16 @@ def exhaustive_small(ctx, terms, depth):
 
                 def ch(en, step, prefix=prefix, seen_len=seen_len):
                     seen_len[step] = len(en)
-                    return prefix[step] if step < len(prefix) else 0
+                    # default (-1): the last enabled event, i.e. prefer Start/Fin/PM/Exit over another Tick
+                    i = prefix[step] if step < len(prefix) else -1
+                    return len(en) - 1 if i == -1 else i
                 run_one(ctx, W, out, ch, terms, 'exhaustive')
                 n += 1
                 for k in range(len(prefix), depth):
                     if k not in seen_len:
                         break
-                    full = prefix + [0] * (k - len(prefix))
-                    for alt in range(1, seen_len[k]):
+                    full = prefix + [-1] * (k - len(prefix))
+                    for alt in range(0, seen_len[k] - 1):
                         stack.append(full + [alt])
     return n
 
